@@ -135,7 +135,6 @@ PROPS = {
         "verus": ["verify_history", ("verify_base", BASE_VERIFY_FNS), ("markers", ["get_marker_versions", "lemma_l1", "find_max_index_in_skiplist", "get_bit_length", "get_marker_version_log2"])],
         "verus_thorough": ["node_label"],
         "search": True,
-        "search_pid": "C08",   # the marker sets are what makes truncating the newest / oldest entries detectable: same executable search
         "always_search": True,
         "scope": "verifier side: key_history_verify Ok ==> non-empty, consecutive decreasing versions, start/end/parameter rules, marker lists = get_marker_versions(start, end, epoch) "
                  "with matching proof counts, results = the proofs' own (epoch, version, value) in order, non-increasing epochs, every update accepted (fresh leaf with value/epoch "
@@ -147,6 +146,8 @@ PROPS = {
     },
     "C06": {
         "verus": ["verify_lookup", ("verify_base", BASE_VERIFY_FNS)],
+        "search": True,
+        "always_search": True,
         "verus_thorough": ["node_label", "markers"],
         "scope": "verifier control-flow soundness: lookup_verify Ok ==> version <= epoch, the result triple equals the proof's fields, and the three sub-proofs "
                  "were accepted for exactly (Fresh, v) with the value/epoch commitment, (Fresh, 2^floor(log2 v)) and (Stale, v) non-membership under the same key/root/label. "
